@@ -286,5 +286,195 @@ Section Term.
       match goal with |- tr _ (match ?x with _ => _ end) => destruct x end; [|done].
       step. done.
     Qed.
+
+    Lemma dec_custom_tr st d tag c l :
+      custom_types S d = Some l ->
+      (forall t, In t (l ++ table_types OPS ATTRS OBJS (t_name d))%list -> okt t) -> (csize c <= lim)%nat ->
+      tr (fun x => (csize (snd (fst x)) < csize c)%nat)
+         (dec_custom_of S OPS ATTRS F dty dopt dobj dtrees st d tag c).
+    Proof.
+      unfold custom_types, table_types, dec_custom_of. cbv zeta.
+      assert (Hin : forall (t : ty) l1 l2, In t l1 -> In t (l1 ++ l2)%list) by (intros; apply in_or_app; left; assumption).
+      assert (Hinr : forall (t : ty) l1 l2, In t l2 -> In t (l1 ++ l2)%list) by (intros; apply in_or_app; right; assumption).
+      destruct (String.eqb (t_name d) "kmip.RequestBatchItem").
+      { intros [= <-] Hall Hc. apply dec_request_item_tr; try assumption;
+          try (apply Hall, Hin; cbn [In]; tauto). intros t Ht. apply Hall, Hinr, Ht. }
+      destruct (String.eqb (t_name d) "kmip.ResponseBatchItem").
+      { intros [= <-] Hall Hc. apply dec_response_item_tr; try assumption;
+          try (apply Hall, Hin; cbn [In]; tauto). intros t Ht. apply Hall, Hinr, Ht. }
+      destruct (String.eqb (t_name d) "kmip.Credential").
+      { unfold cred_types. destruct (find_tdef S "kmip.CredentialValue") as [cv|] eqn:Ecv; [|discriminate].
+        intros [= <-] Hall Hc. eapply dec_credential_tr; try eassumption;
+          apply Hall, Hin; cbn [In]; tauto. }
+      destruct (String.eqb (t_name d) "kmip.KeyBlock").
+      { unfold keyval_types.
+        destruct (find_tdef S "kmip.PlainKeyValue") as [pkv|] eqn:Epkv; [|discriminate].
+        destruct (find_tdef S "kmip.KeyMaterial") as [km|] eqn:Ekm; [|discriminate].
+        intros [= <-] Hall Hc. eapply dec_key_block_tr; try eassumption;
+          try (apply Hall, Hin; cbn [In app]; tauto).
+        intros k Hk. apply Hall, Hin.
+        do 8 (destruct k as [|k]; [cbn [In]; tauto|]). lia. }
+      destruct (String.eqb (t_name d) "kmip.Attribute").
+      { intros [= <-] Hall Hc. apply dec_attribute_tr; assumption. }
+      destruct (String.eqb (t_name d) "payloads.GetResponsePayload").
+      { intros [= <-] Hall Hc. apply dec_get_response_tr; try assumption;
+          try (apply Hall, Hin; cbn [In]; tauto). intros t Ht. apply Hall, Hinr, Ht. }
+      destruct (String.eqb (t_name d) "payloads.RegisterRequestPayload").
+      { intros [= <-] Hall Hc. apply dec_register_request_tr; try assumption;
+          try (apply Hall, Hin; cbn [In]; tauto). intros t Ht. apply Hall, Hinr, Ht. }
+      destruct (String.eqb (t_name d) "payloads.ExportResponsePayload").
+      { intros [= <-] Hall Hc. apply dec_export_response_tr; try assumption;
+          try (apply Hall, Hin; cbn [In]; tauto). intros t Ht. apply Hall, Hinr, Ht. }
+      destruct (String.eqb (t_name d) "payloads.ImportRequestPayload").
+      { intros [= <-] Hall Hc. apply dec_import_request_tr; try assumption;
+          try (apply Hall, Hin; cbn [In]; tauto). intros t Ht. apply Hall, Hinr, Ht. }
+      discriminate.
+    Qed.
   End CustomsTerm.
+
+  Local Notation dec_ty := (SchemaSem.dec_ty S OPS ATTRS OBJS F).
+  Local Notation dec_slice := (SchemaSem.dec_slice S OPS ATTRS OBJS F).
+  Local Notation dec_fields_s := (SchemaSem.dec_fields_s S OPS ATTRS OBJS F).
+  Local Notation dec_opt := (SchemaSem.dec_opt S OPS ATTRS OBJS F).
+  Local Notation dec_object := (SchemaSem.dec_object S OPS ATTRS OBJS F).
+  Local Notation dep := (ty_depth S OPS ATTRS OBJS).
+
+  Lemma ty_depth_eq n t : dep (Datatypes.S n) t =
+    match t with
+    | TScalar _ => Some 1%nat
+    | TIface _ => Some 1%nat
+    | TPtr t' => option_map Datatypes.S (dep n t')
+    | TSlice t' => option_map (fun d => Datatypes.S (Datatypes.S d)) (dep n t')
+    | TNamed name =>
+      if String.eqb name "ttlv.Value" then Some 2%nat
+      else if String.eqb name "ttlv.Struct" then Some 2%nat
+      else
+        match find_tdef S name with
+        | None => Some 1%nat
+        | Some d =>
+          match callees S OPS ATTRS OBJS d with
+          | None => None
+          | Some l => option_map (fun m => (m + own_cost d)%nat) (dmax (dep n) l)
+          end
+        end
+    end.
+  Proof. reflexivity. Qed.
+
+  Lemma ty_depth_pos N t d : dep N t = Some d -> (1 <= d)%nat.
+  Proof.
+    destruct N as [|N]; [discriminate|]. rewrite ty_depth_eq. destruct t as [k|t'|t'|n|n].
+    - intros [= <-]. lia.
+    - destruct (dep N t'); [|discriminate]. intros [= <-]. lia.
+    - destruct (dep N t'); [|discriminate]. intros [= <-]. lia.
+    - destruct (String.eqb n "ttlv.Value"); [intros [= <-]; lia|].
+      destruct (String.eqb n "ttlv.Struct"); [intros [= <-]; lia|].
+      destruct (find_tdef S n) as [dd|]; [|intros [= <-]; lia].
+      destruct (callees S OPS ATTRS OBJS dd); [|discriminate].
+      destruct (dmax _ _); [|discriminate]. intros [= <-]. unfold own_cost. destruct (t_custom_dec dd); lia.
+    - intros [= <-]. lia.
+  Qed.
+
+  (** what a decoder leaves: never more than it was given, and strictly less when the
+      cursor stood on an element with the tag asked for *)
+  Definition adv (tag : Z) (c : cur R) {A B} (x : A * cur R * B) : Prop :=
+    (csize (snd (fst x)) <= csize c)%nat /\ (c_tag c = tag -> (csize (snd (fst x)) < csize c)%nat).
+  Definition noinc (c : cur R) {A B} (x : A * cur R * B) : Prop := (csize (snd (fst x)) <= csize c)%nat.
+
+  Lemma adv_of_lt tag c {A B} (r : res (A * cur R * B)) :
+    tr (fun x => (csize (snd (fst x)) < csize c)%nat) r -> tr (adv tag c) r.
+  Proof. apply tr_impl. intros a H. unfold adv. split; [lia | intros _; exact H]. Qed.
+
+  Lemma noinc_of_adv tag c {A B} (r : res (A * cur R * B)) : tr (adv tag c) r -> tr (noinc c) r.
+  Proof. apply tr_impl. intros a [H _]. exact H. Qed.
+
+  (** the mutual induction on fuel *)
+  Lemma dec_all_tr fuel :
+    (forall N d st t tag c, dep N t = Some d -> (d + 2 * csize c <= fuel)%nat ->
+       tr (adv tag c) (dec_ty fuel st t tag c)) /\
+    (forall N d st t tag c, dep N t = Some d -> (d + 1 + 2 * csize c <= fuel)%nat ->
+       tr (adv tag c) (dec_slice fuel st t tag c)) /\
+    (forall N m st fl c, (forall fd, In fd fl -> exists d, dep N (f_ty fd) = Some d /\ (d <= m)%nat) ->
+       (m + List.length fl + 1 + 2 * csize c <= fuel)%nat ->
+       tr (noinc c) (dec_fields_s fuel st fl c)) /\
+    (forall N d st t tag c, dep N t = Some d -> (d + 1 + 2 * csize c <= fuel)%nat ->
+       tr (noinc c) (dec_opt fuel st t tag c)) /\
+    (forall N m st ot c, (forall t, In t (obj_types OBJS) -> exists d, dep N t = Some d /\ (d <= m)%nat) ->
+       (m + 1 + 2 * csize c <= fuel)%nat ->
+       tr (noinc c) (dec_object fuel st ot c)).
+  Proof.
+    induction fuel as [|f (IHty & IHsl & IHfs & IHopt & IHobj)].
+    { split; [|repeat split; intros; lia]. intros N d st t tag c Hd Hfuel. pose proof (ty_depth_pos _ _ _ Hd). lia. }
+    split; [|split; [|split; [|split]]].
+    - intros N d st t tag c Hd Hfuel. destruct N as [|N]; [discriminate|].
+      rewrite ty_depth_eq in Hd. rewrite dec_ty_eq. destruct t as [k|t'|t'|n|n].
+      + injection Hd as <-. apply adv_of_lt.
+        eapply tr_bind; [apply dec_scalar_tr, HF|]. intros r Hr. exact Hr.
+      + destruct (dep N t') as [d'|] eqn:E; [|discriminate]. injection Hd as <-.
+        destruct (negb (c_tag c =? tag)) eqn:Et.
+        * cbn [tr]. unfold adv. cbn [fst snd]. split; [lia|]. intros Heq.
+          apply negb_true_iff, Z.eqb_neq in Et. contradiction.
+        * eapply tr_bind; [apply (IHty N d' st t' tag c E); lia|]. intros r Hr. exact Hr.
+      + destruct (dep N t') as [d'|] eqn:E; [|discriminate]. injection Hd as <-.
+        eapply tr_bind; [apply (IHsl N d' st t' tag c E); lia|]. intros r Hr. exact Hr.
+      + destruct (String.eqb n "ttlv.Value").
+        { injection Hd as <-. apply adv_of_lt.
+          eapply tr_bind; [apply dec_value_tr; [exact HF | lia | lia]|]. intros r Hr. exact Hr. }
+        destruct (String.eqb n "ttlv.Struct").
+        { injection Hd as <-. apply adv_of_lt. eapply tr_bind.
+          - apply c_struct_tr. intros sub Hsub. eapply tr_impl; [|apply dec_fields_tr; [exact HF | lia]].
+            intros; exact I.
+          - intros r Hr. exact Hr. }
+        destruct (find_tdef S n) as [dd|]; [|exact I].
+        unfold callees, own_cost in Hd. destruct (t_custom_dec dd).
+        * destruct (custom_types S dd) as [l|] eqn:El; [|discriminate].
+          destruct (dmax (dep N) _) as [m|] eqn:Em; [|discriminate]. injection Hd as <-.
+          apply adv_of_lt.
+          apply (dec_custom_tr (dec_ty f) (dec_opt f) (dec_object f) (dec_fields F f) (dep N) m (csize c)) with (l := l).
+          -- intros st0 t0 tag0 c0 (d0 & Hd0 & Hle) Hc0. eapply noinc_of_adv. apply (IHty N d0); [exact Hd0 | lia].
+          -- intros st0 t0 tag0 c0 (d0 & Hd0 & Hle) Hc0. apply (IHopt N d0); [exact Hd0 | lia].
+          -- intros st0 ot c0 Hob Hc0. apply (IHobj N m); [exact Hob | lia].
+          -- intros c0 Hc0. eapply tr_impl; [|apply dec_fields_tr; [exact HF | lia]]. intros; exact I.
+          -- exact El.
+          -- intros t0 Ht0. exact (dmax_in _ _ _ Em t0 Ht0).
+          -- lia.
+        * destruct (dmax (dep N) _) as [m|] eqn:Em; [|discriminate]. injection Hd as <-.
+          apply adv_of_lt. eapply tr_bind.
+          -- apply c_struct_tr. intros sub Hsub. eapply tr_bind.
+             ++ apply (IHfs N m st (t_fields dd) sub).
+                ** intros fd Hfd. apply (dmax_in _ _ _ Em). apply in_map. exact Hfd.
+                ** lia.
+             ++ intros; exact I.
+          -- intros r Hr. exact Hr.
+      + exact I.
+    - intros N d st t tag c Hd Hfuel. rewrite dec_slice_eq.
+      destruct (negb (c_tag c =? tag)) eqn:Et.
+      + cbn [tr]. unfold adv. cbn [fst snd]. split; [lia|]. intros Heq.
+        apply negb_true_iff, Z.eqb_neq in Et. contradiction.
+      + apply negb_false_iff, Z.eqb_eq in Et.
+        eapply tr_bind; [apply (IHty N d st t tag c Hd); lia|]. intros a [Ha1 Ha2]. specialize (Ha2 Et).
+        eapply tr_bind; [apply (IHsl N d (snd a) t tag (snd (fst a)) Hd); lia|]. intros b [Hb1 _].
+        cbn [tr]. unfold adv. cbn [fst snd]. split; [lia | intros _; lia].
+    - intros N m st fl c Hall Hfuel. rewrite dec_fields_s_eq. destruct fl as [|fd fl']; [cbn [tr]; unfold noinc; cbn [fst snd]; lia|].
+      cbn [List.length] in Hfuel.
+      eapply tr_bind with (P := noinc c).
+      + destruct (f_tag fd =? 0); [exact I|].
+        destruct (_ && _)%bool; [cbn [tr]; unfold noinc; cbn [fst snd]; lia|].
+        destruct (_ && _)%bool; [cbn [tr]; unfold noinc; cbn [fst snd]; lia|].
+        destruct (Hall fd (or_introl eq_refl)) as (d0 & Hd0 & Hle).
+        eapply noinc_of_adv. apply (IHty N d0); [exact Hd0 | lia].
+      + intros a Ha. unfold noinc in Ha. cbv zeta. eapply tr_bind.
+        * apply (IHfs N m _ fl' (snd (fst a))); [intros fd' Hfd'; apply Hall; right; exact Hfd' | lia].
+        * intros b Hb. unfold noinc in *. cbn [tr fst snd]. lia.
+    - intros N d st t tag c Hd Hfuel. rewrite dec_opt_eq. destruct (c_tag c =? tag).
+      + eapply noinc_of_adv. apply (IHty N d); [exact Hd | lia].
+      + cbn [tr]. unfold noinc. cbn [fst snd]. lia.
+    - intros N m st ot c Hall Hfuel. rewrite dec_object_eq. destruct (lookup_obj OBJS ot) as [n|] eqn:E; [|exact I].
+      assert (Hin : In (TNamed n) (obj_types OBJS)).
+      { unfold lookup_obj in E. destruct (find _ OBJS) as [e|] eqn:Ef; [|discriminate]. injection E as <-.
+        apply find_some in Ef. destruct Ef as [Hin _]. unfold obj_types.
+        apply (in_map (fun e => TNamed (snd e))). exact Hin. }
+      destruct (Hall _ Hin) as (d0 & Hd0 & Hle).
+      eapply tr_bind; [apply (IHty N d0); [exact Hd0 | lia]|]. intros r [Hr _].
+      cbn [tr]. unfold noinc. cbn [fst snd]. exact Hr.
+  Qed.
 End Term.
